@@ -43,7 +43,7 @@ Definition zero_other_seqs (idx : nat) (ins : list txin) : list txin :=
   map_idx (fun k i => if (k =? idx)%nat then i else set_seq 0 i) 0 ins.
 
 Definition blank_out (o : txout) : txout :=
-  mk_out zero32 max_conf_value [] zero32 (o_rp o) (o_sp o).
+  mk_out zero32 max_conf_value [] zero32 [] [].   (* proofs blanked too since fix 7e846dc *)
 
 (* the transaction that is serialized, or None where the code returns the constant One *)
 Definition legacy_tx (t : tx) (idx : nat) (script : bytes) (ht : N) : option tx :=
